@@ -10,7 +10,7 @@ RDay(r) == r[1]
 RTarget(r) == r[4]
 DayToJdn(d) == JDN(d \div 10000, (d \div 100) % 100, d % 100)
 JdnToDay(j) == LET t == YmdOf(j) IN t[1] * 10000 + t[2] * 100 + t[3]
-UniqueDays(H) == \A a \in H, b \in H : RDay(a) = RDay(b) => a = b
+UniqueDays(H) == Cardinality({ RDay(r) : r \in H }) = Cardinality(H)      \* no two records for one day
 
 \* sort a finite set of records by day (days unique)
 RECURSIVE SortByDay(_)
